@@ -74,11 +74,11 @@ add("C15", "exploration",
     "A worker killed by SIGSEGV/SIGABRT/SIGBUS is reported as a violation by the driver; time-outs and other exits are inconclusive. IL2P and the descrambler are fed {0,1} only (they document/assert bit input).",
     "runtime monitoring: catch_unwind/spin oracle over structure-aware and exhaustive small inputs, AddressSanitizer build", "3/C15", "robustness")
 add("C17", "fault_enumeration",
-    "Open modes: all 30 combinations of {Create, Overwrite, Append} x {absent, empty, non-empty, directory, unwritable} x {FileSink, NoCopyFileSink}, each executed in a child process running as uid 65534 (root ignores mode bits), compared with the documented table (open succeeds/fails; resulting content new / old+new / unchanged). Crash points: a re-executed child streams unique samples (FileSink<u32>) or records (NoCopyFileSink<String>) through a one-page stream from a feeder thread while its main thread loops work() and, after every return, reports the cumulative count consumed by returned calls (from hook events) with one write(2) to a pipe; the parent sends SIGKILL after a seeded number of reports plus a seeded delay (96 kills quick, 3200 thorough), then reads the last complete report and the file: the file must be a prefix of the serialised stream and hold at least the acknowledged count. Failing and slow devices: a sink on /dev/full (every write fails with ENOSPC) must return without having consumed anything, and a sink on a FIFO that accepts one pipe buffer and then stalls must not, while its work() call is blocked, have consumed more input than the device accepted (consumption is watched from the upstream side of the stream by a second thread).",
+    "Open modes: all 30 combinations of {Create, Overwrite, Append} x {absent, empty, non-empty, directory, unwritable} x {FileSink, NoCopyFileSink}, each executed in a child process running as uid 65534 (root ignores mode bits), compared with the documented table (open succeeds/fails; resulting content new / old+new / unchanged). Crash points: a re-executed child streams unique samples (FileSink<u32>) or records (NoCopyFileSink<String>) through a one-page stream from a feeder thread while its main thread loops work() and, after every return, reports the cumulative count consumed by returned calls (from hook events) with one write(2) to a pipe; the parent sends SIGKILL after a seeded number of reports plus a seeded delay (96 kills quick, 3200 thorough), then reads the last complete report and the file: the file must be a prefix of the serialised stream and hold at least the acknowledged count. Failing and slow devices: a sink on /dev/full (every write fails with ENOSPC) must return without having consumed anything, a sink whose write the kernel cuts short (file size limit reached inside the write, SIGXFSZ ignored) must not have consumed more than the file holds, two sinks appending alternately to one file must leave every piece in call order, and a sink on a FIFO that accepts one pipe buffer and then stalls must not, while its work() call is blocked, have consumed more input than the device accepted (consumption is watched from the upstream side of the stream by a second thread).",
     "In the SIGKILL runs acknowledgement is taken when work() returns. The device scenarios look inside the call: consume() is what upstream sees as the acknowledgement, and a sink that consumes before its write has finished fails the unambiguous half as well (write error returned with samples consumed and in no file). Page-cache durability only.",
     "runtime monitoring with fault injection: SIGKILL at seeded points of a child process, prefix/acknowledgement oracle on the file", "3/C17", "filesink")
 add("C18", "fault_enumeration",
-    "Random create/drop histories of up to 200 live streams (u8, u32, [u8;16] buffers and stream pairs of 1,2,3,8 pages) over 1-8 threads; streams are dropped normally or (one drop in six) by a contained panic that unwinds through their owner; at every quiescent point the number of deleted-tmpfile mappings in /proc/self/maps and of entries in /proc/self/fd must equal the baseline. Aliasing through the hook accessor verif_raw(): for every page the first byte, the last byte and 62 random offsets are written at base+i and read at base+size+i and vice versa. Refused creations (sizes that are not page multiples; element sizes 3, 12 and 0) must return Err without panic and leave no mapping or descriptor, and a stream created afterwards passes a C01 history. Mapping failures are injected in a re-executed child: RLIMIT_AS (first mmap fails) and an LD_PRELOAD shim (first mmap ENOMEM, second mmap ENOMEM, second mmap placed at a different address): Buffer::new must return Err, nothing left behind, later streams healthy.",
+    "Random create/drop histories of up to 200 live streams (u8, u32, [u8;16] buffers and stream pairs of 1,2,3,8 pages) over 1-8 threads; streams are dropped normally or (one drop in six) by a contained panic that unwinds through their owner, and one step in eight is a creation that must be refused (size not a page multiple) while the other threads create and drop; at every quiescent point the number of deleted-tmpfile mappings in /proc/self/maps and of entries in /proc/self/fd must equal the baseline. Aliasing through the hook accessor verif_raw(): for every page the first byte, the last byte and 62 random offsets are written at base+i and read at base+size+i and vice versa. Refused creations (sizes that are not page multiples; element sizes 3, 12 and 0) must return Err without panic and leave no mapping or descriptor, and a stream created afterwards passes a C01 history. Mapping failures are injected in a re-executed child: RLIMIT_AS (first mmap fails) and an LD_PRELOAD shim (first mmap ENOMEM, second mmap ENOMEM, second mmap placed at a different address): Buffer::new must return Err, nothing left behind, later streams healthy.",
     "Mapping failures are the four enumerated kinds; leak detection is process-wide, so histories run one at a time per worker. munmap failure (which the code turns into a panic) is not injected.",
     "runtime monitoring with fault injection: /proc mapping and descriptor accounting, LD_PRELOAD mmap failures, RLIMIT_AS", "3/C18", "mappings")
 add("C12", "exploration",
